@@ -102,6 +102,36 @@ func c33Gen(r *vh.Rand, tier string, n int) []c33In {
 		b := c33Mutate(r, a)
 		ins = append(ins, c33In{A: a, B: b, Dpkg: i < ndpkg})
 	}
+	// long numeric fragments: the comparison must stay exact beyond every machine integer width (lengths 17..22 and
+	// the values around 2^63, 2^64 and 10^19, 10^20, with and without zero padding), alone and inside versions
+	bigs := []string{"9223372036854775807", "9223372036854775808", "18446744073709551615", "18446744073709551616",
+		"18446744073709551617", "9999999999999999999", "10000000000000000000", "99999999999999999999",
+		"100000000000000000000", "20000000000000000000", "020000000000000000000", "18446744073709551614",
+		"28446744073709551615", "99999999999999999998", "0018446744073709551616"}
+	for i := 0; i < 6; i++ {
+		bigs = append(bigs, r.Str("123456789", 1, 1)+r.Str("0123456789", 16, 21))
+	}
+	wrapv := func(x string, k int) string {
+		switch k % 4 {
+		case 0:
+			return x
+		case 1:
+			return "1." + x
+		case 2:
+			return x + "-1"
+		default:
+			return "2.0~rc" + x + "+b"
+		}
+	}
+	k := 0
+	for _, x := range bigs {
+		for _, y := range bigs {
+			if x <= y {
+				ins = append(ins, c33In{A: wrapv(x, k), B: wrapv(y, k), Dpkg: k%7 == 0})
+				k++
+			}
+		}
+	}
 	// arbitrary bytes stream (malformed): any byte but NUL handled by the model too
 	for i := 0; i < n/10; i++ {
 		ins = append(ins, c33In{A: r.Str("\x00\x01 /09:;@AZ[`az{~\x7f\x80\xff", 0, 5), B: r.Str("\x00\x01 /09:;@AZ[`az{~\x7f\x80\xff", 0, 5)})
